@@ -50,6 +50,12 @@ func TestMain(m *testing.M) {
 		if rp.Phase == "real_clock" {
 			ev.RunReplay(rp, runReal)
 		}
+		if rp.Phase == "expiry_vs_refresh" {
+			ev.RunReplay(rp, runExpiryVsRefresh)
+		}
+		if rp.Phase == "slow_arming" {
+			ev.RunReplay(rp, runSlowArming)
+		}
 		ev.RunReplay(rp, func(c Case) *ev.Failure { return runCase(c, nil) })
 	}
 	rec = ev.New("C10", "histories over 2 ids x 2 observation domains of {template, replacement, undecodable template, data, clock advance by 0 / 1 / TTL-1 / TTL / 2*TTL, start of a fired timer's callback (it parks after reading the clock), finish of the parked callback, atomic callback run} against a UDP collecting process whose clock and timers are owned by the harness: exhaustive over a reduced alphabet to depth 5 (quick) / 6 (thorough), rapid histories to depth 60; after every action the template table, stored expiry times and the clock's timer table are checked (never dropped early, gone once the lifetime elapsed and the callback ran, exactly one armed timer or a pending/in-flight callback per stored template, no armed timer for removed ones); non-trivial = a refresh, replacement or invalidation happened between a timer firing and its callback finishing; distinct by hash of the case",
